@@ -201,10 +201,11 @@ def prove(pid, cfg, tier):
 # --------------------------------------------------------------------------
 # step 3: correspond
 
-def build_harness(pid, hcfg):
-    """go test -c with this property's harness files overlaid into the package. Returns (path, err)."""
+def build_harness(pid, hcfg, tag=""):
+    """go test -c with this property's harness files overlaid into the package. Returns (path, err).
+    `tag` distinguishes the binaries of CONFIG["extra_harness"] entries (further packages of the same property)."""
     pkg, gobin = hcfg["pkg"], hcfg.get("go", "go")
-    with Lock("harness_%s" % pid):
+    with Lock("harness_%s%s" % (pid, tag)):
         hdir = os.path.join(VERIF, "harness", pkg)
         pkgdir = REPO if pkg == "signaling" else os.path.join(REPO, pkg)
         names = ["zz_verif_common_test.go"] + hcfg.get("files", [])
@@ -212,9 +213,9 @@ def build_harness(pid, hcfg):
         rep = {}
         for base in dict.fromkeys(names):
             rep[os.path.join(pkgdir, base)] = os.path.join(hdir, base)
-        ov = os.path.join(BUILD, "overlay_%s.json" % pid)
+        ov = os.path.join(BUILD, "overlay_%s%s.json" % (pid, tag))
         json.dump({"Replace": rep}, open(ov, "w"), indent=1)
-        exe = os.path.join(BUILD, "%s.test" % pid)
+        exe = os.path.join(BUILD, "%s%s.test" % (pid, tag))
         t0 = time.time()
         env = dict(GOENV)
         if hcfg.get("race"):
@@ -387,6 +388,11 @@ def setup():
         if exe is None:
             print("setup: harness %s does not build:\n%s" % (pid, err))
             bad.append(pid)
+        for xi, xh in enumerate(cfg.get("extra_harness", []), 1):
+            exe, err = build_harness(pid, xh, "_x%d" % xi)
+            if exe is None:
+                print("setup: extra harness %s/%s does not build:\n%s" % (pid, xh["pkg"], err))
+                bad.append(pid)
     if bad:
         raise SystemExit("setup failed for: " + ", ".join(bad))
     print("setup ok")
@@ -448,6 +454,14 @@ def main():
     cases, model, issues = [], [], []
     corr_broken = []
     harness_log = ""
+    # optional further harness packages of the same property (CONFIG["extra_harness"], same op protocol and
+    # driver); a case remembers the harness it came from in c["harness"] (index into `harnesses`)
+    harnesses = [(exe, hcfg)]
+    for xi, xh in enumerate(cfg.get("extra_harness", []), 1):
+        xexe, xerr = build_harness(pid, xh, "_x%d" % xi)
+        harnesses.append((xexe, xh))
+        if xexe is None and exe is not None:
+            exe, err = None, "extra harness %s: %s" % (xh["pkg"], xerr)
     if exe is None:
         corr_broken.append("Corr.%s: harness no longer compiles against the tree: %s" % (pid, err[-600:]))
     elif not pr["driver_ok"]:
@@ -460,7 +474,10 @@ def main():
             rp = tmp + ".replay.jsonl"
             with open(rp, "w") as f:
                 f.write(json.dumps({"ops": r["ops"]}) + "\n")
-            rc, harness_log, cases = run_harness(exe, hcfg["pkg"], hcfg["test"], seed, tier, tmp + ".jsonl", replay=rp)
+            rexe, rcfg = harnesses[r.get("harness", 0)]
+            rc, harness_log, cases = run_harness(rexe, rcfg["pkg"], rcfg["test"], seed, tier, tmp + ".jsonl", replay=rp)
+            for c in cases:
+                c["harness"] = r.get("harness", 0)
         else:
             # corpus first
             corpus = sorted(glob.glob(os.path.join(VERIF, "corpus", pid, "*.jsonl")))
@@ -476,6 +493,15 @@ def main():
             rc, harness_log, gcases = run_harness(exe, hcfg["pkg"], hcfg["test"], seed, tier, tmp + ".jsonl",
                                                   timeout=hcfg.get("timeout", 1800))
             cases += gcases
+            for xi, (xexe, xh) in enumerate(harnesses[1:], 1):
+                xrc, xlog, xcases = run_harness(xexe, xh["pkg"], xh["test"], seed, tier, tmp + ".x%d.jsonl" % xi,
+                                                timeout=xh.get("timeout", 1800))
+                for c in xcases:
+                    c["harness"] = xi
+                cases += xcases
+                if xrc != 0:
+                    corr_broken.append("Corr.%s: extra harness %s run failed rc=%d after %d cases: %s"
+                                       % (pid, xh["pkg"], xrc, len(xcases), xlog[-800:]))
             if rc != 0 and not gcases:
                 corr_broken.append("Corr.%s: harness run failed rc=%d: %s" % (pid, rc, harness_log[-800:]))
             elif rc != 0:
@@ -517,8 +543,10 @@ def main():
             break
         ops = cases[iss["case"]]["ops"]
         sops, sissue, scase = (ops, iss, cases[iss["case"]])
+        hidx = cases[iss["case"]].get("harness", 0)
         if exe and iss.get("why") != "violated:process-died" and not cfg.get("no_shrink"):
-            s2, i2, c2 = shrink(cfg, pid, exe, hcfg, ops, iss["kind"], tmp, budget_s=40 if tier == "quick" else 120)
+            s2, i2, c2 = shrink(cfg, pid, harnesses[hidx][0], harnesses[hidx][1], ops, iss["kind"], tmp,
+                                budget_s=40 if tier == "quick" else 120)
             if i2 is not None:
                 sops, sissue, scase = s2, i2, c2
         if sissue["kind"] == "spec":
@@ -533,12 +561,13 @@ def main():
             reported.add(why)
             p = write_replay(dict(property=pid, seed=seed, tier=tier, kind="failing-input", why=why, ops=sops,
                                   impl=scase.get("impl"), step=sissue["step"], model=sissue.get("model"),
-                                  log=iss.get("log")))
+                                  log=iss.get("log"), **({"harness": hidx} if hidx else {})))
             violations.append(dict(why=why, replay=p, found=True))
         else:
             corr_broken.append("Corr.%s: model and implementation differ at step %d of a %d-op case: impl=%r model=%r"
                                % (pid, sissue["step"], len(sops), sissue["impl"], sissue["model"]))
-            p0 = dict(ops=sops, impl=scase.get("impl"), step=sissue["step"], model=sissue.get("model"))
+            p0 = dict(ops=sops, impl=scase.get("impl"), step=sissue["step"], model=sissue.get("model"),
+                      **({"harness": hidx} if hidx else {}))
             notes.append(dict(correspondence_diff=p0))
 
     broken = proof_broken + corr_broken
@@ -548,9 +577,13 @@ def main():
         if exe and pr["driver_ok"]:
             t_end = time.time() + (90 if tier == "quick" else 480)
             s = seed
+            wround = 0
             while time.time() < t_end and found is None:
                 s = s * 7919 + 13
-                rc, hl, wc = run_harness(exe, hcfg["pkg"], hcfg["test"], s % (1 << 31), "thorough", tmp + ".w.jsonl",
+                widx = wround % len(harnesses)
+                wround += 1
+                wexe, wcfg = harnesses[widx]
+                rc, hl, wc = run_harness(wexe, wcfg["pkg"], wcfg["test"], s % (1 << 31), "thorough", tmp + ".w.jsonl",
                                          scale=30, timeout=max(30, int(t_end - time.time())))
                 if not wc:
                     break
@@ -558,14 +591,15 @@ def main():
                 for iss in compare(cfg, wc, wm):
                     if iss["kind"] == "spec":
                         ops = wc[iss["case"]]["ops"]
-                        s2, i2, c2 = shrink(cfg, pid, exe, hcfg, ops, "spec", tmp, budget_s=30)
+                        s2, i2, c2 = shrink(cfg, pid, wexe, wcfg, ops, "spec", tmp, budget_s=30)
                         if i2 is None:
                             s2, i2, c2 = ops, iss, wc[iss["case"]]
                         k = next((k for k in known if matches_known(k, i2["why"], s2)), None)
                         if k is not None:
                             known_hit[k["id"]] = k
                             continue
-                        found = dict(why=i2["why"], ops=s2, impl=c2.get("impl"), step=i2["step"], model=i2.get("model"))
+                        found = dict(why=i2["why"], ops=s2, impl=c2.get("impl"), step=i2["step"], model=i2.get("model"),
+                                     **({"harness": widx} if widx else {}))
                         break
         if found:
             p = write_replay(dict(property=pid, seed=seed, tier=tier, kind="failing-input", broken=broken, **found))
